@@ -9,7 +9,12 @@ is compared with `ApiSpec.spec` (the contract on the abstract map):
   finding `C02_empty_key_counterexample`: it is accepted by the client and rejected by a strict server);
 * `flags`, when given, is `≥ 0`; an integer `delta` (incr/decr) or `delay` (flush_all) is `≥ 0`
   (the client renders them with `str()` unchecked; a strict server rejects a minus sign there);
-* the call is not `raw` (an arbitrary command line is not part of the map contract).
+* the call is not `raw` (an arbitrary command line is not part of the map contract);
+* the call is not one of the three administrative operations `stats`, `cache_memlimit`, `shutdown`: they say
+  nothing about the key → value map, the abstract map (`AbsMap`) and the wire-level server (`Server.feed`,
+  whose strict parser knows the C05 alphabet only) give them no semantics, so `WF` is `False` for them and
+  C04/C05 (and `C07_miss_on_healthy_empty_server`, which is stated through `WF`) do not speak about them.
+  They ARE covered by the connection-level properties C01/C06/C07/C10, which quantify over every `Call`.
 
 Nothing is required of `expire` (any integer is framed correctly; a non-integer is rejected by the
 client and by the contract alike) nor of the `cas` argument (`_check_cas` rejects on both sides).
@@ -40,6 +45,9 @@ def WF (cfg : Cfg) : Call → Prop
   | .version => True
   | .quit => True
   | .raw _ _ => False
+  | .stats _ => False             -- administrative operations: outside the map contract (see the header)
+  | .cacheMemlimit _ => False
+  | .shutdown _ => False
 
 /-- Is the socket open, with nothing unread, after call `c` returned `r` over a perfect connection?
 Always, except after `quit` (the client closes) and after a `CLIENT_ERROR` line (non-numeric
